@@ -100,6 +100,25 @@ def _b_body(d, crlf, final_nl):
         from pathlib import Path
         pdoc, _ = kp.load(Path(path))
         check(diff(snap(pdoc), snap(sdoc)) == '', 'load(Path) differs from load(str)')
+        # histories: what was done with an earlier result of load(), or an earlier version of the file, does not show in a later load()
+        ref_snap = snap(sdoc)
+        for n in fdoc.tree.stages[-1]:
+            n.token.encoding = 'changed by the caller'
+        try:
+            fdoc.to_transposed('M2', 'up')
+        except Exception:
+            pass
+        again, _ = kp.load(path)
+        check(diff(snap(again), ref_snap) == '', f'a second load() of the same file after the first result was modified differs from loads(text): {diff(snap(again), ref_snap)}')
+        st = os.stat(path)
+        other = text.replace('4c', '4a').replace('**kern', '**text', 1) if '4c' in text else text.replace('**kern', '**text', 1)
+        if other != text and len(other.encode('utf-8')) == len(text.encode('utf-8')):
+            with open(path, 'w', encoding='utf-8', newline='') as f:
+                f.write(other)
+            os.utime(path, ns=(st.st_atime_ns, st.st_mtime_ns))       # same size, same time stamp, other content
+            newer, _ = kp.load(path)
+            odoc, _ = kp.loads(other)
+            check(diff(snap(newer), snap(odoc)) == '', 'load() of a file whose content changed (same size, same time stamp) differs from loads(new text)')
     return True
 
 
@@ -147,9 +166,10 @@ def _c_body(d, o, depth, exists, as_path):
 
 
 # ------------------------------------------------------------------ C20.d command line converters
-SCORES = ('**kern\n*clefG2\n=1\n4c#L\n8.r;\n4e 4g-\n==\n*-\n',
+# (durationless grace notes: their extended form 'cc·q' has a decoration separator but no token separator)
+SCORES = ('**kern\n*clefG2\n=1\n4c#L\nccq\n8.r;\n4e 4g-\n==\n*-\n',
           '**kern\t**text\t**kern\t**kern\n*clefF4\t*\t*clefG2\t*clefG2\n=1\t=1\t=1\t=1\n4C\tla\t4e\t4g;\n2DJ\tli\t2f#\t2a\n==\t==\t==\t==\n*-\t*-\t*-\t*-\n',
-          '**kern\t**kern\n*clefG2\t*clefG2\n*M4/4\t*M4/4\n4c\t4e\n=2\t=2\n4dn\t4f\n*-\t*-\n')
+          '**kern\t**kern\n*clefG2\t*clefG2\n*M4/4\t*M4/4\n4c\t4e\nddq\t.\n=2\t=2\n4dn\t4f\n*-\t*-\n')
 
 
 def api_ekern(text):
